@@ -280,7 +280,7 @@ func (g *coreGen) stmts(ind, depth, n int, vars []gvar, rets []string) []gvar {
 			v := pick(g.r, local)
 			switch v.typ {
 			case "int":
-				switch g.r.intn(5) {
+				switch g.r.intn(8) {
 				case 0:
 					g.line(ind, "%s = %s", v.name, g.intExpr(local, 2))
 				case 1:
@@ -289,8 +289,36 @@ func (g *coreGen) stmts(ind, depth, n int, vars []gvar, rets []string) []gvar {
 					g.line(ind, "%s -= %d", v.name, g.r.intn(9))
 				case 3:
 					g.line(ind, "%s++", v.name)
-				default:
+				case 4:
 					g.line(ind, "%s *= %d", v.name, g.r.intn(4))
+				default:
+					// the shapes the peephole optimizer rewrites (and their near misses): the same local on both
+					// sides, unparenthesised chains of constants, a second local as operand
+					w := v.name
+					if iv := varsOf(local, "int"); len(iv) > 0 && g.r.chance(50) {
+						w = pick(g.r, iv)
+					}
+					c1, c2 := g.r.intn(12), g.r.intn(12)
+					op := func() string { return pick(g.r, []string{"+", "-"}) }
+					switch g.r.intn(8) {
+					case 0:
+						g.line(ind, "%s = %s %s %d %s %d", v.name, v.name, op(), c1, op(), c2)
+					case 1:
+						g.line(ind, "%s = %s %s %d", v.name, v.name, op(), c1)
+					case 2:
+						g.line(ind, "%s = %s %s %s", v.name, v.name, pick(g.r, []string{"+", "-", "*"}), w)
+					case 3:
+						g.line(ind, "%s = %s / (%s*%s + 1)", v.name, v.name, w, w)
+					case 4:
+						g.line(ind, "%s = %s %s %d %s %d", v.name, w, op(), c1, op(), c2)
+					case 5:
+						g.line(ind, "%s = %d %s %s %s %d", v.name, c1, op(), v.name, op(), c2)
+					case 6:
+						g.line(ind, "%s = %s %s %d %s %s %s %d", v.name, v.name, op(), c1, op(), w, op(), c2)
+					default:
+						g.line(ind, "%s %s= %s %s %d %s %d", v.name, op(), w, op(), c1, op(), c2)
+					}
+					g.kinds["peephole-shaped int assignment"]++
 				}
 			case "bool":
 				g.line(ind, "%s = %s", v.name, g.boolExpr(local, 2))
@@ -301,7 +329,18 @@ func (g *coreGen) stmts(ind, depth, n int, vars []gvar, rets []string) []gvar {
 					g.line(ind, "%s += %s", v.name, g.strExpr(local, 0))
 				}
 			case "float64":
-				g.line(ind, "%s = %s", v.name, g.floatExpr(local, 2))
+				switch g.r.intn(6) {
+				case 0:
+					// integer constants added to a float at the edge of integer precision: (x+1)+1 is not x+2
+					g.line(ind, "%s = %s", v.name, pick(g.r, []string{"9007199254740992.0", "-9007199254740992.0", "9007199254740993.0", "4503599627370496.5"}))
+					g.line(ind, "%s = %s %s %d %s %d", v.name, v.name, pick(g.r, []string{"+", "-"}), 1+g.r.intn(3), pick(g.r, []string{"+", "-"}), 1+g.r.intn(3))
+					g.kinds["peephole-shaped float assignment"]++
+				case 1:
+					g.line(ind, "%s = %s %s %d %s %d", v.name, v.name, pick(g.r, []string{"+", "-"}), g.r.intn(4), pick(g.r, []string{"+", "-"}), g.r.intn(4))
+					g.kinds["peephole-shaped float assignment"]++
+				default:
+					g.line(ind, "%s = %s", v.name, g.floatExpr(local, 2))
+				}
 			case "[]int":
 				switch g.r.intn(4) {
 				case 0:
